@@ -15,6 +15,15 @@ ASSUMPTIONS = [
 ]
 
 PROPS = {
+    "C15": {
+        "rule": "YAML documents emitted by the harness from random (claims, marking): block style with every fifth container in flow style, JSON-quoted keys and scalars (null, booleans, "
+                "integers, floats, empty / non-ASCII / quoted strings), !sd on mapping keys at any depth (also inside sequences, below tagged keys, in single-entry mappings) and on "
+                "string sequence items; parse_yaml vs the model run on the value tree serde_yaml builds from the same text; oracle: claims == C, set(paths) == M, no enclosing path "
+                "before a nested one; then Issuer(C).iter_disclosable(paths).encode + Holder::verify == C. non-trivial = a tag below depth 1 or below another tag; distinct = distinct (kind,input)",
+        "explanation": "",
+        "trusted_base": ["YAML text -> value tree is serde_yaml (oracle): the model starts from the tree the harness obtains with serde_yaml::from_str on the same text"],
+        "assumptions": [],
+    },
     "C13": {
         "rule": "(a) one history case: 33 000 (quick) / 480 000 (thorough) issuances of one document with 13 disclosable claims (4 top-level, 4 nested, 4 inside a claim that is itself "
                 "disclosable) and decoy maxima cycling 1..50, every second issuer object used for two encode() calls, 16 threads pooled into one set: salts >= 16 bytes, salts / "
